@@ -249,6 +249,45 @@ pub fn run(ctx: &Ctx, rep: &mut Report) {
     let per_row = ctx.n(4, 300);
     row_sweep::<f64>(rep, ctx, per_row);
     row_sweep::<f32>(rep, ctx, per_row * 4);
+    binade_sweep::<f64>(rep, ctx);
+    binade_sweep::<f32>(rep, ctx);
+}
+
+/// significand sizes (bits) of the binade sweeps: 1-2 digits, ~3, ~6, ~10, ~17, ~21 and ~40 decimal digits
+pub const SIG_BITS: [u32; 7] = [4, 9, 20, 33, 56, 70, 133];
+
+/// every binade from 400 below the smallest subnormal to 400 above the largest finite value (the exact answer
+/// outside the range is a signed zero or infinity; one wrong shift count or table index is confined to one binade)
+fn binade_sweep<F: FloatT>(rep: &mut Report, ctx: &Ctx) {
+    let k = F::KIND;
+    let lo = 1 - k.bias() - (k.p as i64 - 1) - 400;
+    let hi = (k.max_exp_field() as i64 - 1) - k.bias() + 400;
+    let per = ctx.n(7, 56);
+    let n_chunks = 32usize;
+    run_enum(rep, ctx, if k.p == 53 { "f64:binade-sweep" } else { "f32:binade-sweep" }, n_chunks, |w, l, viol| {
+        let mut e2 = lo + w as i64;
+        while e2 <= hi {
+            let mut h = mix(ctx.seed, &["c01-binade", &e2.to_string()]);
+            for i in 0..per {
+                h = splitmix(h);
+                let m = match i {
+                    0 => 1u64 << 52,
+                    1 => (1u64 << 53) - 1,
+                    _ => (1u64 << 52) | (h >> 12),
+                };
+                // value m * 2^(e2 - 52): leading bit at 2^e2
+                let text = gen::binade_text(Radices::DECIMAL, m, e2 - 52, b'.', if h & 1 == 0 { b'e' } else { b'E' }, h & 2 != 0, SIG_BITS[(i as usize + (h >> 20) as usize) % SIG_BITS.len()]);
+                let c = Case { text, class: "binade-sweep", junk: JUNK[(h >> 8) as usize % JUNK.len()] };
+                if let Err(f) = check_text::<F>(&c, l) {
+                    if filter_known(ctx, l, &f) {
+                        viol.push((f.message, case_json(&c, k.name)));
+                        return;
+                    }
+                }
+            }
+            e2 += n_chunks as i64;
+        }
+    });
 }
 
 pub fn replay(_ctx: &Ctx, case: &Value) -> CaseResult {
